@@ -755,7 +755,7 @@ class Weaver:
         array([10., 12., 14., 16., 18., 20., 22., 24., 26., 28., 30.])
 
         """
-        self.x_scale = self.x_scale * scale
+        self.x_scale = self.x_scale * (scale.item() if isinstance(scale, np.generic) else scale)
         self.x = self.x * scale
         self.reference_x = self.reference_x * scale
         return self
@@ -780,7 +780,7 @@ class Weaver:
         array([20., 24., 28., 32., 36., 40., 44., 48., 52., 56., 60.])
 
         """
-        self.y_scale = self.y_scale * scale
+        self.y_scale = self.y_scale * (scale.item() if isinstance(scale, np.generic) else scale)
         self.y = self.y * scale
         self.reference_y = self.reference_y * scale
         return self
